@@ -309,7 +309,7 @@ def oracle_reference(arg, out):
     return None
 
 # ----------------------------------------------------------------------------------------
-PROBE_RE = re.compile(r'^<([^:>]*):(-?\d+):([^>]*)>$')
+PROBE_RE = re.compile(r'^<([^:>]*):(-?\d+):([^:>]*):(-?\d+):([^:>]*)>$')
 _PROBE_SHAPES = None
 def is_probe(cmds):
     """exactly a program of c03_gen.order_probe (so that shrinking cannot turn it into something else)"""
@@ -357,7 +357,7 @@ def oracle_probe(arg, out, with_default):
             m = PROBE_RE.match(line)
             if not m or cur is None:
                 return 'unexpected output line %r' % line
-            cur.append((m.group(1), int(m.group(2)), m.group(3)))
+            cur.append((m.group(1), int(m.group(2)), m.group(3), int(m.group(4)), m.group(5)))
             t = types.get(m.group(1).lower())
             if t is None:
                 return 'cite$ gave %r, which is not in the database' % m.group(1)
@@ -372,39 +372,56 @@ def oracle_probe(arg, out, with_default):
     if nwarn != undefined_visits:
         return 'call.type$ should have warned %d times about an entry type without a function, warned %d times' % (undefined_visits, nwarn)
     order, n_of, counter = None, {}, 0
+    mt_of = {}           # citation -> (m, t) as last assigned
     for label, rows in blocks:
         keys = [r[0] for r in rows]
         if label == 'first':
             order = keys
-            for k, n, sk in rows:
-                if n != 0 or sk != '':
-                    return 'entry variables of %s should start as 0 / "" (n=%d, sort.key$=%r)' % (k, n, sk)
-        elif order is None:
+            for k, n, sk, m_, t_ in rows:
+                if n != 0 or sk != '' or m_ != 0 or t_ != '':
+                    return 'entry variables of %s should start as 0 / "" (n=%d, sort.key$=%r, m=%d, t=%r)' % (k, n, sk, m_, t_)
+            continue
+        if order is None:
             return 'no first pass'
-        elif label == 'count':
-            if keys != order:
-                return 'ITERATE visited %r, citation order is %r' % (keys, order)
-            for i, (k, n, sk) in enumerate(rows):
-                if n != counter + i + 1:
-                    return 'entry variable n of %s should be %d during the counting pass, is %d' % (k, counter + i + 1, n)
-            for k in order:
+        want = order[::-1] if label in ('reverse', 'reset_rev') else order
+        if label == 'sorted':
+            sk_of = dict((k, sk) for k, n, sk, m_, t_ in rows)
+            if sorted(keys) != sorted(order):
+                return 'SORT changed the citations: %r -> %r' % (order, keys)
+            want = sorted(order, key=lambda k: sk_of[k])     # list.sort is stable
+            if keys != want:
+                return 'SORT should give the stable order %r (keys %r), gave %r' % (want, [sk_of[k] for k in want], keys)
+            order = keys
+        elif label == 'reset':
+            # ITERATE or REVERSE {probe.reset}: either direction visits every citation once
+            if keys != order and keys != order[::-1]:
+                return 'the reset pass visited %r, citation order is %r' % (keys, order)
+        elif keys != want:
+            return '%s visited %r, expected %r' % (label.upper(), keys, want)
+        for i, (k, n, sk, m_, t_) in enumerate(rows):
+            if label == 'count':
+                g = counter + i + 1
+                if n != g:
+                    return 'entry variable n of %s should be %d during the counting pass, is %d' % (k, g, n)
+                if (m_, t_) != (g + 7, 'x%d' % g):
+                    return 'entry variables m / t of %s should be %d / %r right after their assignment, are %d / %r' % (k, g + 7, 'x%d' % g, m_, t_)
+            elif label == 'reset':
+                if (m_, t_) != (0, ''):
+                    return 'entry variables m / t of %s were assigned #0 / "" and should read 0 / "", read %d / %r' % (k, m_, t_)
+        if label == 'count':
+            for k in keys:
                 counter += 1
                 n_of[k] = counter          # a key cited twice shares one frame: the last visit wins
+                mt_of[k] = (counter + 7, 'x%d' % counter)
+        elif label == 'reset':
+            for k in keys:
+                mt_of[k] = (0, '')
         else:
-            want = order[::-1] if label == 'reverse' else order
-            if label == 'sorted':
-                sk_of = dict((k, sk) for k, n, sk in rows)
-                if sorted(keys) != sorted(order):
-                    return 'SORT changed the citations: %r -> %r' % (order, keys)
-                want = sorted(order, key=lambda k: sk_of[k])     # list.sort is stable
-                if keys != want:
-                    return 'SORT should give the stable order %r (keys %r), gave %r' % (want, [sk_of[k] for k in want], keys)
-                order = keys
-            elif keys != want:
-                return '%s visited %r, expected %r' % (label.upper(), keys, want)
-            for k, n, sk in rows:
+            for k, n, sk, m_, t_ in rows:
                 if k in n_of and n != n_of[k]:
                     return 'entry variable n of %s should still be %d, is %d' % (k, n_of[k], n)
+                if k in mt_of and (m_, t_) != mt_of[k]:
+                    return 'entry variables m / t of %s should still be %d / %r, are %d / %r' % ((k,) + mt_of[k] + (m_, t_))
     return None
 
 def oracle(fn, arg, out):
